@@ -148,7 +148,7 @@ type LeafOpts struct {
 	EC     bool
 	Key    crypto.Signer
 	SKI    []byte
-	NoKU   bool // no key usage extension at all
+	NoKU   bool   // no key usage extension at all
 	RawSub []byte // complete DER subject name (instead of CN)
 }
 
